@@ -212,6 +212,7 @@ func runC08(c *Ctx) {
 	if fn := c.Fn("C08.retention", PkgRoot, "FileSink", "pruneFiles"); fn != nil {
 		c.errorFlowRule("C08.retention", fn, fileSinkErrExceptions, false)
 		c.ruleReadDirClassified("C08.retention")
+		c.ruleRotatedNameAs("C08.names")
 	}
 	c.rulePartialWrite()
 	c.ruleFileReopen("C08.reopen")
@@ -1873,6 +1874,16 @@ func (c *Ctx) ruleRenameTarget(rule string) {
 			strings.Contains(oldT.String(), "Field[Path](Param(0:fs))") && strings.Contains(newT.String(), "Field[Path](Param(0:fs))")
 		r.Check(ok, rule, "rotate:rename-target", p.InstrPos(ci), "timestamp-only mode renames Path/FileName to Path/pattern(UnixNano): rotated names cannot collide within a second",
 			"the rotated file is not renamed from the plain configured name to the sink's pattern filled with a UnixNano timestamp: two rotations within the timestamp's resolution get the same name and os.Rename silently replaces the earlier rotated file (acknowledged events lost)")
+		// the stamp orders the sink's files: it is read from the clock HERE, with the sink's lock held
+		// (rotate runs inside Process's critical section). A reading taken earlier — handed in as a
+		// parameter, read before the lock — is not monotone in lock order: a writer that read the clock
+		// first and rotates second names its file BEFORE the one rotated in between, so the files read
+		// out of acknowledgement order and retention removes the newer file.
+		stampHere := newT.Find(func(x *Term) bool {
+			return x.Is("Call", "(time.Time).UnixNano") && len(x.Args) == 1 && x.Args[0].Is("Call", "time.Now")
+		}) != nil
+		r.Check(stampHere, rule, "rotate:stamp-under-lock", p.InstrPos(ci), "the rotated file's stamp is time.Now().UnixNano() read inside rotate (under the sink's lock)",
+			"the rotated file's stamp is not read from the clock inside rotate ("+shortStr(newT.String(), 140)+"): a reading taken before the sink's lock was acquired is not monotone in the order in which writers rotate, so the names no longer order the files by age")
 	}
 }
 
